@@ -941,6 +941,15 @@ func main() {
 		// a null value read as `any`
 		seq("corpus", []request{{"Get", "n", anyT}})
 		seq("corpus", []request{{"Get", "ln", anyT}, {"Get", "n", tyByName("*int")}, {"GetOrDefault", "n", anyT}})
+		// an element type and the pointer to it on the same key, in both orders: on a null value E decodes to
+		// its zero value and *E to a nil pointer, on a value *E points to a copy - an entry memoised for one
+		// of the two types must not be the source of the other's answer (round 8, C10-82)
+		for _, e := range []string{"int", "string", "bool", "int8", "uint8"} {
+			for _, k := range []string{"n", "a", "s", "b"} {
+				seq("corpus", []request{{"Get", k, tyByName(e)}, {"Get", k, tyByName("*" + e)}, {"GetOrDefault", k, tyByName("*" + e)}})
+				seq("corpus", []request{{"Get", k, tyByName("*" + e)}, {"Get", k, tyByName(e)}, {"MustGet", k, tyByName("*" + e)}})
+			}
+		}
 		// two distinct local types that print the same %T
 		var locals []int
 		for _, t := range types {
